@@ -251,6 +251,39 @@ pub fn check_unicode_opt(prop: &str, buf: &Buffer, at: usize, what: &str, fonts:
     None
 }
 
+/// Strings the engine derives from the cells on request: the text of detected hyperlinks and of cell runs.
+/// (A panic in the scanner is not this property's business and is ignored here.)
+pub fn derived_strings(prop: &str, buf: &Buffer, at: usize, what: &str) -> Option<Violation> {
+    // the scanner walks every cell of the declared size (a SAUCE record may declare 65535 rows): only asked
+    // for documents of ordinary size
+    if i64::from(buf.get_width().max(0)) * i64::from(buf.get_height().max(0)) > 200_000 {
+        return None;
+    }
+    let r = std::panic::catch_unwind(std::panic::AssertUnwindSafe(|| {
+        for l in buf.parse_hyperlinks() {
+            let u = l.get_url(buf);
+            if std::str::from_utf8(u.as_bytes()).is_err() {
+                return Some(inv(prop, "invalid_utf8", format!("{what}: text of the hyperlink detected at ({},{}) is not valid UTF-8", l.position.x, l.position.y), at));
+            }
+        }
+        let w = buf.get_width().clamp(0, 200) as usize;
+        for y in 0..buf.get_line_count().min(4) {
+            let st = buf.get_string((0, y), w);
+            if std::str::from_utf8(st.as_bytes()).is_err() {
+                return Some(inv(prop, "invalid_utf8", format!("{what}: text of row {y} (Buffer::get_string) is not valid UTF-8"), at));
+            }
+        }
+        None
+    }));
+    match r {
+        Ok(v) => v,
+        Err(_) => {
+            crate::guard::take_panics();
+            None
+        }
+    }
+}
+
 /// A font's name is a string the engine built and its glyph table is keyed by `char`.
 pub fn check_font(prop: &str, f: &icy_engine::BitFont, at: usize, what: &str) -> Option<Violation> {
     if std::str::from_utf8(f.name.as_bytes()).is_err() {
@@ -352,7 +385,21 @@ impl Monitor for UnicodeMonitor {
     }
     fn at_end(&mut self, s: &Session, at: usize, stats: &mut RunStats) -> Option<Violation> {
         stats.count("unicode_scans");
-        check_unicode("C10", &s.buf, at, "terminal session (end of stream)").or_else(|| Self::parser_strings(s, at))
+        check_unicode("C10", &s.buf, at, "terminal session (end of stream)")
+            .or_else(|| Self::parser_strings(s, at))
+            .or_else(|| derived_strings("C10", &s.buf, at, "terminal session (end of stream)"))
+            .or_else(|| {
+                // strings the graphics parsers keep for the front end (host commands of mouse regions and buttons)
+                for f in s.parser.as_dyn().get_mouse_fields() {
+                    if let Some(c) = &f.host_command {
+                        stats.count("mouse_field_commands_checked");
+                        if std::str::from_utf8(c.as_bytes()).is_err() {
+                            return Some(inv("C10", "invalid_utf8", "host command of a mouse field is not valid UTF-8".into(), at));
+                        }
+                    }
+                }
+                None
+            })
     }
 }
 
